@@ -67,6 +67,8 @@ pub struct Profile {
     pub done_and_fall_off: bool,
     /// every fourth program is an idiom program (see idioms.rs) instead of a grammar one
     pub idioms: bool,
+    /// never let a body run off its end (C01: runtime errors are C04/C13's subject)
+    pub no_fall_off: bool,
 }
 
 impl Default for Profile {
@@ -92,6 +94,7 @@ impl Default for Profile {
             back_edges: true,
             done_and_fall_off: true,
             idioms: true,
+            no_fall_off: false,
         }
     }
 }
@@ -505,10 +508,8 @@ impl<'a> Gen<'a> {
                 if args.is_empty() {
                     Some(n)
                 } else {
-                    Some(format!(
-                        "{n}({})",
-                        args.iter().map(|a| a.print()).collect::<Vec<_>>().join(", ")
-                    ))
+                    // a divert with arguments stays a statement in the choice body
+                    None
                 }
             }
             Stmt::End => Some("END".into()),
@@ -603,7 +604,7 @@ impl<'a> Gen<'a> {
             // occasionally the author forgot the terminator: content simply runs out
             // (an error, unless the flow already made a safe exit)
             let odds = if sc.kind == KnotKind::ThreadTarget { 3 } else { 14 };
-            if self.p.done_and_fall_off && sc.func.is_none() && self.t.chance(1, odds) {
+            if self.p.done_and_fall_off && sc.func.is_none() && self.t.chance(1, odds) && !self.p.no_fall_off {
                 return b;
             }
             let t = self.terminal(sc);
